@@ -207,11 +207,11 @@ Proof.
     all: destruct (queued s system) eqn:QD; injection H as <- <-; [fin_unq C C C C | apply finish_same; [exact Hinv|reflexivity]].
   - (* data message *)
     cbn [hs_step]. unfold is_selected. change connection_CONNECTED_SELECTED with 3%nat.
-    assert (Hq : forall x, any_waiting (abs s) x = queued s x) by reflexivity.
+    assert (Hq : forall x t, is_waiting (abs s) x t = queued_as s x t) by reflexivity.
     destruct Hst as [[C A]|[[C A]|[C A]]]; rewrite A in H; [discriminate H| |]; rewrite C; cbn [Nat.eqb negb].
     + injection H as <- <-. apply finish_same; [exact Hinv|reflexivity].
     + destruct wf; [|discriminate H]. rewrite Hq in H.
-      destruct (queued s system && negb w) eqn:QD; injection H as <- <-; [fin_unq C C C C|].
+      destruct (queued_as s system ST_DATA && negb w) eqn:QD; injection H as <- <-; [fin_unq C C C C|].
       apply finish_same; [exact Hinv|reflexivity].
   - (* own request opened *)
     injection H as <- <-. cbn [hs_step].
@@ -337,12 +337,12 @@ Qed.
 
 Theorem data_delivered s system w :
   reachable s -> abs_state s = Selected ->
-  snd (hs_step s (EvData system w true)) = [if queued s system && negb w then OutResolve system else OutDeliver system] /\
+  snd (hs_step s (EvData system w true)) = [if queued_as s system ST_DATA && negb w then OutResolve system else OutDeliver system] /\
   abs_state (fst (hs_step s (EvData system w true))) = Selected.
 Proof.
   intros _ Hn. cbn [hs_step]. unfold is_selected. unfold abs_state in *.
   destruct (cur (h_sm s) =? connection_CONNECTED_SELECTED)%nat eqn:E; [|destruct (cur (h_sm s) =? connection_CONNECTED_NOT_SELECTED)%nat; discriminate Hn].
-  cbn [negb]. destruct (queued s system && negb w); cbn [fst snd unqueue h_sm]; rewrite E; split; reflexivity.
+  cbn [negb]. destruct (queued_as s system ST_DATA && negb w); cbn [fst snd unqueue h_sm]; rewrite E; split; reflexivity.
 Qed.
 
 (* the state after any history on which E37 prescribes every step (no Separate.req among them) *)
